@@ -304,7 +304,7 @@ pub fn check_graph(l: &mut Local, m: &Mat, rng: &mut Rng) {
 pub fn run(run: &mut Run) {
     run.rule = "graphs up to 14x14 in 11 families (forests, cycle with pendant trees, two cycles joined by a path, dense, disconnected, complete, circulant, forest+edge, cycle+chord+pendant path, sparse); for each graph ALL roots (rows and columns) and ALL bounds 0..g+3 and usize::MAX are queried and compared with a plain-BFS oracle on an explicit adjacency list (local girth = min over neighbours u of 1 + dist(u,v) without edge uv); non-trivial = (graph, root) where the graph has a cycle and the root does not lie on a shortest one".into();
     run.assumptions = vec!["oracle BFS and edge-removal local girth are written from the definitions".into()];
-    let n = if cfg!(miri) { 12 } else { run.tier.n(4000, 300_000) };
+    let n = if cfg!(miri) { 12 } else { run.tier.n(250_000, 8_000_000) };
     run.sub("graphs", n, |l, _idx, rng| {
         let m = gen_graph(rng);
         check_graph(l, &m, rng);
